@@ -79,8 +79,10 @@ def _gen_key(r, used, ascii_only):
             spec = r.choice("abcxyz")
         elif c < 0.8:
             spec = ["L%d_" % r.randrange(9), 255]
-        elif c < 0.9:
+        elif c < 0.88:
             spec = ["M%d_" % r.randrange(9), r.choice([5, 17, 100, 254])]
+        elif c < 0.91:
+            spec = ""          # the empty key is a key like any other (a block of 5 header bytes when its value is empty too)
         elif ascii_only:
             spec = "key_%d" % r.randrange(1000)
         else:
@@ -137,6 +139,9 @@ def gen_plan(r, tier, index):
     for _ in range(nses):
         tag += 1
         session.append({"k": _gen_key(r, used, ascii_only), "v": _gen_val(r, tag, big_ok, bufsize)})
+    for rec in committed + session:
+        if rec["k"] == "" and r.random() < 0.6:
+            rec["v"][1] = 0
     plan = {
         "check": CHECK, "bufsize": bufsize, "layer": layer,
         "coll_bufsize": r.choice([-1, -1, 0, 40, 1 << 20]),
